@@ -47,13 +47,13 @@ func UnpadMessage(padded []byte) ([]byte, error) {
 		return nil, fmt.Errorf("invalid varint prefix in padded message: %d", varintLen)
 	}
 
-	end := uint64(varintLen) + msgLen
-	if end > uint64(len(padded)) {
+	// Compare without adding: varintLen + msgLen wraps around for a length close to 2^64.
+	if msgLen > uint64(len(padded)-varintLen) {
 		return nil, fmt.Errorf(
 			"varint length %d exceeds available data (have %d bytes after prefix)",
 			msgLen, len(padded)-varintLen,
 		)
 	}
 
-	return padded[varintLen:end], nil
+	return padded[varintLen : varintLen+int(msgLen)], nil
 }
